@@ -1539,7 +1539,7 @@ class Gen:
             ("mkColl", 4 * crowd if nf else 0), ("fromData", 0.5 * crowd), ("slice", 1.6 * crowd if ncoll else 0),
             ("append", 1.6 * crowd if ncoll else 0), ("copy", 2.2 * crowd if n else 0), ("deepcopy", 1.3 * crowd if n else 0), ("neg", 1 * crowd if n else 0),
             ("binop", 4 * crowd if nf else 0), ("inplace", 4.5 if nf else 0), ("operator", 1.3 * crowd * self.op_boost if nf else 0),
-            ("derived", 1.2 * crowd if nf else 0), ("storage", 2.2 * crowd if nf else 0),
+            ("derived", 1.2 * crowd if nf else 0), ("storage", (4.5 if w.storages else 1.5) * crowd if nf else 0),
             ("malformed", 1.6 if nf else 0),
         ]
         kinds, weights = zip(*table)
@@ -1793,10 +1793,11 @@ class Gen:
 
     def g_storage(self):
         w, rng = self.w, self.rng
-        if not w.storages or rng.random() < 0.25:
+        if not w.storages or rng.random() < 0.15:
             i = self.pick(lambda j: w.cls[j] != "raw")
             return None if i is None else {"k": "storage", "what": "start", "h": self.name(i)}
-        st = rng.choice(sorted(w.storages))
+        filled = sorted(k for k, S in w.storages.items() if S["frames"])
+        st = rng.choice(filled) if filled and rng.random() < 0.6 else rng.choice(sorted(w.storages))
         S = w.storages[st]
         if S["frames"] and rng.random() < 0.65:
             if rng.random() < 0.25:
